@@ -481,3 +481,86 @@ def register(reg):
     for w, m_, c_ in ((worlds.CLIENT, 'client', 'Client'), (worlds.ASYNC_CLIENT, 'async_client', 'AsyncClient')):
         reg.add(handle_error_contract(w, '%s.%s._handle_error' % (m_, c_)))
         reg.add(client_eio_message_contract(w, '%s.%s._handle_eio_message' % (m_, c_)))
+
+
+# --------------------------------------------------------------------------- _handle_eio_connect (C08: one CONNECT per requested namespace, with the auth payload)
+def eio_connect_contract(world, target):
+    from .sending import OUT
+    from .eio_model import THE_CONNECTION
+    CONNECT = smt.box_int(z3.IntVal(0))
+    CNS = ('client', 'connection_namespaces')
+    AUTH = ('client', 'connection_auth')
+
+    def nss(st):
+        return st.get(*CNS).leaf()
+
+    def auth_value(c, st_calls_pre, st_calls_post):
+        """the payload: the configured value, or what the configured callable returned (one call), or {} when that is falsy"""
+        return None
+
+    def sent(pre, post, upto, c=None):
+        o0, o1 = pre.get(*OUT), post.get(*OUT)
+        e = THE_CONNECTION
+        n0 = o0.c['.len'][e]
+        L = nss(pre)
+        j = z3.Int('ec_j')
+        x = z3.Const('ec_x', V)
+        return {
+            'one-connect-per-namespace-so-far': o1.c['.len'][e] == n0 + upto,
+            'in-request-order-with-type-connect': z3.ForAll([j], z3.Implies(z3.And(j >= n0, j < n0 + upto), z3.And(
+                o1.c['.ptype'][e][j] == CONNECT, o1.c['.ns'][e][j] == smt.vseq(L)[j - n0], o1.c['.id'][e][j] == NONE)), patterns=[o1.c['.ptype'][e][j]]),
+            'earlier-packets-kept': z3.ForAll([j], z3.Implies(z3.And(j >= 0, j < n0), z3.And(*[o1.c['.' + f][e][j] == o0.c['.' + f][e][j] for f in ('ptype', 'ns', 'id', 'data')])),
+                                              patterns=[o1.c['.ptype'][e][j]]),
+            'nothing-on-other-connections': z3.ForAll([x], z3.Implies(x != e, z3.And(o1.c['.len'][x] == o0.c['.len'][x]))),
+        }
+
+    def empty_dict(x):
+        return z3.And(smt.kind(x) == smt.K_DICT, smt.vlen(x) == 0)
+
+    def same_payload(pre, post, upto, is_payload):
+        o0, o1 = pre.get(*OUT), post.get(*OUT)
+        e = THE_CONNECTION
+        n0 = o0.c['.len'][e]
+        j = z3.Int('ec_p')
+        return z3.ForAll([j], z3.Implies(z3.And(j >= n0, j < n0 + upto), is_payload(o1.c['.data'][e][j])), patterns=[o1.c['.data'][e][j]])
+
+    def inv(lc):
+        d = sent(lc.entry, lc.cur, lc.i)
+        ra = lc.var('real_auth')
+        d['all-carry-the-auth-payload'] = same_payload(lc.entry, lc.cur, lc.i, (lambda x: x == ra.t) if isinstance(ra, S) else empty_dict)
+        return d
+
+    def post(c):
+        L = nss(c.pre)
+        d = sent(c.pre, c.post, smt.vlen(L))
+        d['session-id-is-the-transports'] = c.post.get(*SID).leaf() == c.pre.get('eio', 'sid').leaf()
+        a = c.pre.get(*AUTH).leaf()
+        o0, o1 = c.pre.get(*OUT), c.post.get(*OUT)
+        first = o1.c['.data'][THE_CONNECTION][o0.c['.len'][THE_CONNECTION]]
+        calls0, calls1 = c.pre.get('g', 'calls'), c.post.get('g', 'calls')
+        ncalls = calls1.c['len'] - calls0.c['len']
+        # a value that is not callable is sent as it is ({} when falsy); a callable is called exactly once and its result is sent
+        n_ = calls0.c['len']
+        A_ = z3.If(ncalls == 0, a, calls1.c['ret'][n_])
+        called_ok = z3.Or(ncalls == 0, z3.And(ncalls == 1, calls1.c['fn'][n_] == a, calls1.c['args#len'][n_] == 0))
+        is_payload = lambda x: z3.If(smt.truthy(A_), x == A_, empty_dict(x))
+        d['auth-callable-called-at-most-once-without-arguments'] = called_ok
+        d['every-connect-carries-the-auth-value-or-the-callables-result'] = same_payload(c.pre, c.post, smt.vlen(L), is_payload)
+        return d
+    return Contract(
+        target=target, schema=world, self_obj='client', params={},
+        requires=lambda c: dict(base_req(c), **{'connection-namespaces-is-a-list': smt.kind(nss(c.pre)) == smt.K_LIST}),
+        cases=[Case('connects-every-requested-namespace', post=post),
+               Case('auth-callable-or-packet-construction-raises', kind='raise', exc='Exception', post=lambda c: {})],
+        loops={0: LoopSpec(inv, mod_state=[OUT, ('g', 'raw')])},
+        modifies=[OUT, ('g', 'raw'), SID, ('g', 'calls')], props=['C08'],
+        must_fail=lambda c: {'connects-every-requested-namespace:claims-nothing-sent': sv_equiv(c.post.get(*OUT), c.pre.get(*OUT))})
+
+
+_reg_eioc2 = register
+
+
+def register(reg):
+    _reg_eioc2(reg)
+    for w, m_, c_ in ((worlds.CLIENT, 'client', 'Client'), (worlds.ASYNC_CLIENT, 'async_client', 'AsyncClient')):
+        reg.add(eio_connect_contract(w, '%s.%s._handle_eio_connect' % (m_, c_)))
